@@ -66,7 +66,7 @@ def run(ctx):
                            fn.file, line, al, {"block_path": path})
         # the loop must also not contain a panic site outside the pool hand-off (accept thread dying = server dead)
     r2p, seen2, _ = panic_rule(ctx, chk, "C06", "R2p-accept-thread-cannot-panic", R.accept_loops,
-                               cut=lambda e: e.kind in ("mentions", "dyn-call", "dyn-call-caught") and e.dst in R.connection_closures, floor=3)
+                               cut=lambda e: e.kind in ("mentions", "dyn-call", "dyn-call-caught") and e.dst in R.connection_closures, floor=0)
 
     # R3/R4: C07.R1 and C07.R3
     r3 = chk.rule("R3-lock-released-before-task", "C07.R1: no lock guard live when the task is invoked (a stuck task must not block the queue)", floor=1)
